@@ -44,6 +44,9 @@ def check_value(value, what: str = "") -> None:
         by_line = "\n".join(l.plain_text() for l in pp(value, no_color=True))
         if by_line != text:
             raise Violation(f"lines :: {what}: line-by-line iteration differs from the whole text")
+        collected = list(pp(value, no_color=True))          # all lines taken first, read afterwards
+        if "\n".join(l.plain_text() for l in collected) != text:
+            raise Violation(f"lines-collected :: {what}: the lines collected into a list first and read afterwards differ from the whole text")
         try:
             back = json.loads(text) if fmt_json else ast.literal_eval(text)
         except Exception as e:  # noqa
